@@ -3552,4 +3552,75 @@ theorem copyView_add_content (w w' : World) (hsep : Sep w) (x ai : Nat) (f i : A
       lookupT_kvUpdate (by rw [canonKvs_keys]; exact n2), lookupT_canonKvs, lookupT_canonKvs,
       getC_of_canon_eq hc2 n2 na key, getC_of_canon_eq hc1 n1 nx key]
 
+/-! ## pickling across processes: the hash function changes, the cache must not travel -/
+
+private theorem cacheGet_none_of_not_mem {cache : List (Addr × Nat)} {g : Addr}
+    (h : ∀ f c, (f, c) ∈ cache → f ≠ g) : cacheGet cache g = none := by
+  induction cache with
+  | nil => rfl
+  | cons q r ih =>
+    obtain ⟨a, c⟩ := q
+    simp only [cacheGet]
+    have : a ≠ g := h a c (by simp)
+    simp [this]
+    exact ih (fun f c hm => h f c (by simp [hm]))
+
+/-- **The object rebuilt by pickling has an empty `_hash`** (it is built by the constructor): right after
+`pickle`, the new FrozenDict has no cache entry — in the same process. -/
+theorem pickle_result_uncached (H : HashFns) (hw hw' : HWorld) (x : Nat) (r : Option Nat)
+    (hc : CacheOk H hw) (h : hstep H hw (.base (.pickle x)) = .ok (hw', r)) :
+    ∃ g, hw'.w.roots = hw.w.roots ++ [.ref g] ∧ cacheGet hw'.cache g = none := by
+  simp only [hstep] at h
+  split at h
+  · rename_i w' hst
+    simp at h; obtain ⟨rfl, _⟩ := h
+    simp only [step] at hst
+    repeat' split at hst
+    all_goals first | cases hst | skip
+    rename_i a _ _ i hg _ h1 u hd _ h2 xs hdo _ h3 rr hm
+    obtain ⟨g, hg1, hg2⟩ := mkFrozen_fresh hm
+    subst hg1
+    refine ⟨g, rfl, cacheGet_none_of_not_mem ?_⟩
+    intro f c hmem e
+    obtain ⟨⟨j, hf⟩, _⟩ := hc.2 f c hmem
+    have h4 := lt_length_of_get hf
+    have h5 := (deep_ext' hd).length_le
+    have h6 := (dictOf_ext hdo).length_le
+    subst e
+    omega
+  · cases h
+
+/-- **In whatever process a pickle is loaded, `hash` computes afresh with that process's hash
+function**: after `loadedElsewhere` (any heap, any new `H'`) the first `hash` of a FrozenDict returns
+`freshHash H'` — equal contents therefore hash equal there (`hash_order_independent`). -/
+theorem hash_after_load_is_fresh (H' : HashFns) (hw hw' : HWorld) (x : Nat) (f i : Addr) (c : Nat)
+    (hx : hw.w.roots[x]? = some (.ref f)) (hf : hw.w.heap[f]? = some (Obj.frozen i))
+    (h : hstep H' hw.loadedElsewhere (.hash x) = .ok (hw', some c)) :
+    freshHash H' hw.w.heap f = some c := by
+  simp only [hstep, HWorld.loadedElsewhere, hx, hf, cacheGet] at h
+  split at h
+  · rename_i c' hfresh; simp at h; rw [← h.2]; exact hfresh
+  · cases h
+
+/-- **Counter-example for a `__reduce__` that carries `_hash`** (`carryCacheOrig`, not the model's
+behaviour): hash `{'a': 1}` under one hash function, pickle, give the rebuilt object the old cache
+entry, and ask for its hash in a process with another hash function: the answer is the stale value,
+not the hash of its contents — although it equals a freshly built FrozenDict, whose hash differs. -/
+theorem carried_cache_is_stale_counterexample :
+    ∃ (H H' : HashFns) (hw : HWorld) (x : Nat) (g : Addr) (c c' : Nat),
+      CacheOk H hw ∧ hw.w.roots[x]? = some (.ref g) ∧
+      (match hstep H' (hw.carryCacheOrig 2 5) (.hash x) with
+       | .ok (_, some v) => decide (v = c)
+       | _ => false) = true ∧
+      freshHash H' hw.w.heap g = some c' ∧ c ≠ c' := by
+  let H : HashFns := ⟨fun s => s.length, fun l => match l with | .atom n => some n.toNat | .opq _ => none, fun a b => a * 31 + b⟩
+  let H' : HashFns := ⟨fun s => s.length + 7, fun l => match l with | .atom n => some n.toNat | .opq _ => none, fun a b => a * 31 + b⟩
+  let ops : List HOp := [.base .newDict, .base (.newLeaf (.atom 1)), .base (.setKey 0 "a" 1), .base (.freeze 0),
+    .hash 2, .base (.pickle 2)]
+  refine ⟨H, H', hrun H HWorld.init ops, 3, 5, 32, 249, cacheOk_hrun H ops _ (cacheOk_init H), ?_, ?_, ?_, ?_⟩
+  · decide
+  · decide
+  · decide
+  · decide
+
 end Flax.C15
